@@ -98,6 +98,7 @@ func main() {
 		scs = []scenario{{f, append(append([]string{}, w.History...), w.Edit)}}
 	}
 
+	var skipped []string
 	var evals, crashed, recovered int64
 	var opsMu sync.Mutex
 	distinctOps := map[string]bool{}
@@ -132,12 +133,23 @@ func main() {
 		if clean.Exit != 0 {
 			lib.Fatal("clean build of scenario fails: %s", clean.Output)
 		}
+		// an uninterrupted incremental build from the pre-state with the plain binary: where that already differs from a clean
+		// build (the listed C01 name-blind-directory-hash findings) the scenario says nothing about crashes and is skipped
+		inc := filepath.Join(e.Root, "inc")
+		hist.CopyTree(pre, inc)
+		incObs := e.RunWith(plz, inc, src, nil)
+		os.RemoveAll(inc)
+		if incObs.Exit != 0 || hist.DiffOuts(incObs, clean) != "" {
+			skipped = append(skipped, sc.fam.Name()+":"+last)
+			os.RemoveAll(e.Root)
+			continue
+		}
 		// dry run with tracing to learn the operation sequence
 		dry := filepath.Join(e.Root, "dry")
 		hist.CopyTree(pre, dry)
 		tf := filepath.Join(e.Root, "dry.trace")
-		if o := e.RunWith(plzVos, dry, src, []string{"VOS_TRACE=" + tf}); o.Exit != 0 || hist.DiffOuts(o, clean) != "" {
-			lib.Fatal("dry run of the seamed binary differs from the plain binary: exit=%d %s", o.Exit, hist.DiffOuts(o, clean))
+		if o := e.RunWith(plzVos, dry, src, []string{"VOS_TRACE=" + tf}); o.Exit != 0 || hist.DiffOuts(o, incObs) != "" {
+			lib.Fatal("dry run of the seamed binary differs from the plain binary: exit=%d %s", o.Exit, hist.DiffOuts(o, incObs))
 		}
 		ops := readTrace(tf)
 		os.RemoveAll(dry)
@@ -235,7 +247,7 @@ func main() {
 		Rule:               "for each scenario (first build of two repository families; rebuild after single edits) every mutating file-system operation k of the build: kill before k (and torn-write variant), then recover; plus every crash point of fs.WriteFile over old/new contents; non-trivial = the process really died at the crash point",
 		Samples:            samples.List(),
 		Exhaustive:         exhaustive,
-		Extra:              map[string]any{"scenarios": len(scs), "fs_operations_in_dry_runs": totalOps, "recovered_equal_to_clean": recovered, "distinct_operations_crashed_at": len(distinctOps), "writefile_crash_points": wfEvals, "writefile_ops": wfOps},
+		Extra:              map[string]any{"scenarios": len(scs), "scenarios_skipped_because_the_uninterrupted_incremental_build_already_differs_from_clean": skipped, "fs_operations_in_dry_runs": totalOps, "recovered_equal_to_clean": recovered, "distinct_operations_crashed_at": len(distinctOps), "writefile_crash_points": wfEvals, "writefile_ops": wfOps},
 	})
 }
 
